@@ -6,6 +6,7 @@ package main
 // printed line, from re-spaced / commented / parenthesised variants and from damaged lines (`text.parse`).
 
 import (
+	"encoding/hex"
 	"encoding/json"
 	"fmt"
 	"net"
@@ -96,7 +97,7 @@ func fieldVals(rr dns.RR, steps []textStep) (string, bool) {
 			}
 		case "uint", "uintlax", "uintalg", "uintttl", "hexgroups", "euitok", "nodeid":
 			out = append(out, fmt.Sprintf("n:%d", fv.Uint()))
-		case "name", "endstr", "tok", "octet", "tokstr", "salt":
+		case "name", "endstr", "endstrsplit", "tok", "octet", "tokstr", "salt":
 			out = append(out, "s:"+hexOrDash([]byte(fv.String())))
 		case "ipv4":
 			// a four-octet address (from the wire), or what net.ParseIP returned for one (sixteen octets)
@@ -212,6 +213,23 @@ func textStream(c *Ctx, per int) {
 				parseOne("respaced", structName, "", alt, pl.Parse)
 			}
 			parseOne("damaged", structName, []string{"", "example.org.", "."}[r.Intn(3)], strings.Join(f[:4], "\t")+"\t"+damageText(r, f[4])+"\n", pl.Parse)
+		}
+		// hex text around the lengths at which the SMIMEA printer cuts it into pieces (1024 characters: an empty last piece
+		// when the length is a multiple of it)
+		if structName == "SMIMEA" {
+			for _, octets := range []int{1, 511, 512, 513, 1023, 1024, 1025, 1536, 2048} {
+				cert := make([]byte, octets)
+				for j := range cert {
+					cert[j] = byte(r.Intn(256))
+				}
+				rr := &dns.SMIMEA{Hdr: dns.RR_Header{Name: "s.example.", Rrtype: dns.TypeSMIMEA, Class: 1, Ttl: 5}, Usage: 3, Selector: 1, MatchingType: 0, Certificate: hex.EncodeToString(cert)}
+				txt := rr.String()
+				f := strings.SplitN(txt, "\t", 5)
+				if vals, ok := fieldVals(rr, pl.Print); ok && len(f) == 5 {
+					c.OpK("text-print", fmt.Sprintf("text.print %s %s", structName, vals), hexOrDash([]byte(f[4])), true, fmt.Sprintf("text-print-pieces:%d", octets))
+					parseOne("pieces", structName, "", txt+"\n", pl.Parse)
+				}
+			}
 		}
 		// relative names and @ against an origin, numbers at their limits
 		for _, rd := range []string{"@", "rel", "rel.ative", "0 rel", "65535 @", "65536 rel", "255 255 255 abcd", "256 1 1 abcd", "0 0 0 rel", "1 2 3 @",
